@@ -187,6 +187,10 @@ def _h_funcs():
     return {'f': lambda a: a * 2, 'sin': np.sin}
 
 
+def _two_args(a, b):
+    return a + b
+
+
 def do_event(op, s):
     """One call; returns a comparable, picklable outcome."""
     try:
@@ -196,6 +200,12 @@ def do_event(op, s):
         if op == 'e':
             v, m = evaluator(s, dict(H_VARS), _h_funcs(), dict(H_SUFF), max_array_dim=2)
             return ('ok', repr(v), sorted(m.variables_used), sorted(m.functions_used), sorted(m.suffixes_used))
+        if op == 'w':
+            # the scalar scope, but f now takes TWO arguments (and sin none at all): f(x) is an arity error here
+            v, m = evaluator(s, dict(H_VARS), {'f': _two_args, 'sin': _h_funcs()['sin']},
+                             dict(H_SUFF), max_array_dim=2)
+            return ('ok', repr(v), sorted(m.variables_used), sorted(m.functions_used), sorted(m.suffixes_used),
+                    m.max_array_dim_used)
         if op in ('v', 'm'):
             # 'v': the same strings in ANOTHER scope - vector-valued variables, another multiplier for k, another f;
             # 'm': the scalar scope, but with one-dimensional arrays at most (the MatrixGrader default).  What is
@@ -312,7 +322,8 @@ INF_EVENTS2 = [(op, s) for op in 'eipg' for s in ['1e999', 'x+y', 'sin(0)+x+y', 
 
 # the same strings across scopes: scalar scope ('e'), vector scope with other suffix / function values ('v'), scalar scope
 # with max_array_dim=1 ('m')
-SCOPE_EVENTS = [(op, s) for op in 'evm' for s in ['[x,y]', 'x+y', '[x,y]*2', '2k', 'f(x)', '[x,2k]', 'x*y']]
+SCOPE_EVENTS = [(op, s) for op in 'evm' for s in ['[x,y]', 'x+y', '[x,y]*2', '2k', 'f(x)', '[x,2k]', 'x*y']] + \
+    [('w', s) for s in ['f(x)', 'f(x,y)', 'x+y']] + [('e', 'f(x,y)')]
 
 
 def items_history_inf(tier):
